@@ -21,7 +21,7 @@ import copy
 from .model import Program
 
 VARIANTS = ("comps->loops", "loops->comps", "else-intro", "else-elim", "positive-if", "counter-loops", "zip-loops",
-            "comps->loops+else-elim", "loops->comps+else-elim", "comps->loops+else-intro", "loops->comps+else-intro")
+            "loops->comps+zip-loops", "comps->loops+else-elim", "loops->comps+else-elim", "comps->loops+else-intro", "loops->comps+else-intro")
 _CACHE: dict = {}
 CHANGED: dict = {}   # cache key -> modules whose source the normal form changes
 
@@ -201,8 +201,17 @@ class _FnRewriter:
         not read after it (a later `for i in ...` may reuse the name: it assigns before it reads)"""
         if getattr(self, "_loop_depth", 0) == 0 and getattr(self, "_fn", None) is not None and nodes:
             end = max(getattr(nd, "end_lineno", 0) or 0 for nd in nodes)
+            # a later loop / comprehension that binds the name itself reads its own binding, not the one left behind here
+            shielded = set()
+            for f in ast.walk(self._fn):
+                if isinstance(f, (ast.For, ast.AsyncFor)) and getattr(f, "lineno", 0) > end:
+                    own = {n.id for n in ast.walk(f.target) if isinstance(n, ast.Name)}
+                    shielded |= {id(n) for b_ in f.body for n in ast.walk(b_) if isinstance(n, ast.Name) and n.id in own}
+                elif isinstance(f, (ast.ListComp, ast.SetComp, ast.GeneratorExp, ast.DictComp)) and getattr(f, "lineno", 0) > end:
+                    own = {n.id for g in f.generators for n in ast.walk(g.target) if isinstance(n, ast.Name)}
+                    shielded |= {id(n) for n in ast.walk(f) if isinstance(n, ast.Name) and n.id in own}
             later_reads = {n.id for n in ast.walk(self._fn) if isinstance(n, ast.Name) and isinstance(n.ctx, ast.Load)
-                           and getattr(n, "lineno", 0) > end}
+                           and getattr(n, "lineno", 0) > end and id(n) not in shielded}
             if any(not hasattr(n, "lineno") for n in ast.walk(self._fn) if isinstance(n, ast.Name)):
                 later_reads = None   # nodes synthesised by an earlier transform carry no position: use the strict rule
             nested = set()
